@@ -37,3 +37,23 @@ def install(reg):
                  modifies=["self.language", "self.files", "self.loc", "self.functions", "self.hard_to_maintain", "self.unmaintainable"],
                  ensures={"zeroed": "self.language == language and self.files == 0 and self.loc == 0 and self.functions == 0 and "
                                     "self.hard_to_maintain == 0 and self.unmaintainable == 0"}, props=("C07",))
+
+
+def install_measurements(reg):
+    """Whole-codebase views (C05, C07): reading them creates a new list and changes nothing."""
+    reg.contract(CB + "all_measurements", params={}, returns="list[Measurement]", fresh_result=True,
+                 locals={"result": "list[Measurement]"},
+                 loops={0: dict(fingerprint="entry in self.files.values()", invariant={
+                     "still_a_new_list": "fresh(result)"})},
+                 ensures={"a_new_list": "fresh(result)"},
+                 modifies=[], props=("C05", "C07"),
+                 note="the statement-level content (concatenation over files) is checked by the bounded stand-ins of C05/C07; what is "
+                      "discharged is that the view is a new list and that reading it writes nothing (no cache, no aliasing)")
+
+
+_install_b = install
+
+
+def install(reg):
+    _install_b(reg)
+    install_measurements(reg)
